@@ -20,6 +20,7 @@ import Glb.Driver.Nano
 import Glb.Driver.TaskLaneTrace
 import Glb.Driver.AuxFns
 import Glb.Driver.Daemon
+import Glb.Driver.TrSelf
 
 open Glb.Driver
 
@@ -47,4 +48,5 @@ def main (args : List String) : IO UInt32 := do
   | ["nano"] => loop stdin stdout () Nano.step; return 0
   | ["tltrace"] => loop stdin stdout (0 : Nat) TaskLaneTrace.step; return 0
   | ["aux"] => loop stdin stdout () AuxFns.step; return 0
+  | ["trself"] => loop stdin stdout () TrSelf.step; return 0
   | _ => IO.eprintln "usage: driver <stream>"; return 2
